@@ -427,6 +427,14 @@ def _bounds_ok(ctx, p, b, fn, bi):
                 # parent-walk cursor over a node slice: indices stored in the tree are in range (C15.range)
                 if all(n[0] in ('unwrap', 'param', 'rec') for n in idx):
                     return True, 'index is a stored parent link / the caller\'s node index (C15.range)'
+                if idx == T(('const', '0')):
+                    # first node of a node slice handed to a helper: the trees always hold their root
+                    base = None
+                    for sj, st2 in enumerate(b.blocks[bi]['stmts'][:si]):
+                        if st2['k'] == 'assign' and st2['rv']['k'] == 'unop' and st2['rv']['op'] == 'PtrMetadata':
+                            base = fn.op_terms(st2['rv']['a'], (bi, sj))
+                    if base is not None and _nonempty_container(ctx, p, fn, base):
+                        return True, 'first node of a tree that always holds its root (C02.reroot, C15.noremove)'
     return False, 'slice index is not provably in range'
 
 
